@@ -36,6 +36,11 @@ def run(chk):
     for i, c in enumerate(fsel):
         items.append({"case": c, "seed": chk.seed * 100003 + 500 + i, "scalar": "float64", "ninputs": 1, "builder": "harness.corpus.realise_facet",
                       "max_entities": 2, "npairs": 1, "nperm": 2, "options": {"language": "numba"}, "label": s5.case_label(c) + "|numba"})
+    # complex scalar types (complex constants, conj / real / imag, complex literals on either side of inner)
+    cxc = [c for c in s5.enumerate_formspace(chk, complex_terms=True) if c["term"] in ("cplx", "sesq", "ccond")]
+    for i, c in enumerate(s5.sample_cases(cxc, 3 if quick else 30, chk.seed + 4, max_cost=12 if quick else 100)):
+        items.append({"case": c, "seed": chk.seed * 100003 + 800 + i, "scalar": "complex128" if i % 2 == 0 else "complex64", "ninputs": 1,
+                      "options": {"language": "numba"}, "label": s5.case_label(c) + "|numba|complex"})
     recs = s5.run_items(chk, items, nworkers=4 if quick else 6, module_size=1)
     for r in recs:
         it = items[r["item"]]
